@@ -209,6 +209,7 @@ func (bg *Background) BuildScript(o *Obligation, cvc5 bool) string {
 
 // SolverConfig controls the portfolio.
 type SolverConfig struct {
+	NoRetry    map[string]bool // obligation names that are not retried after a time-out (listed known findings)
 	TimeoutSec int
 	Jobs       int
 	AllSolvers bool // thorough: run every back end on every obligation
@@ -295,6 +296,60 @@ func (bg *Background) Discharge(obls []*Obligation, cfg SolverConfig) {
 		}(i, o)
 	}
 	wg.Wait()
+	bg.retryTimeouts(obls, cfg, dir)
+}
+
+// retryTimeouts gives obligations that ended in a solver time-out (not in a quick "unknown", which is the normal answer
+// for a goal E-matching cannot prove) a second run on a quiet machine: one obligation at a time, the three solvers side
+// by side, twice the budget. A loaded machine must not turn a proof into an alarm; a goal that is not provable
+// stays unproved. At most 8 obligations are retried (more than that is a real breakage, not load).
+func (bg *Background) retryTimeouts(obls []*Obligation, cfg SolverConfig, dir string) {
+	var again []*Obligation
+	for _, o := range obls {
+		if o.Canary || o.Result == "unsat" || o.Result == "sat" || cfg.NoRetry[o.Name] || cfg.NoRetry[strings.TrimPrefix(o.Name, "tinywasm:")] {
+			continue
+		}
+		timedOut := o.Result == "timeout"
+		for _, out := range o.Outputs {
+			if strings.Contains(out, "timeout") || strings.Contains(out, "interrupted") || strings.Contains(out, "canceled") {
+				timedOut = true
+			}
+		}
+		if timedOut {
+			again = append(again, o)
+		}
+	}
+	if len(again) == 0 || len(again) > 8 {
+		return
+	}
+	for i, o := range again {
+		type ans struct {
+			res, name string
+			el        float64
+		}
+		ch := make(chan ans, len(solvers))
+		for _, sp := range solvers {
+			go func(sp solverSpec) {
+				script := o.Script
+				if sp.cvc5 {
+					script = bg.BuildScript(o, true)
+				}
+				res, _, el := runSolver(sp, script, dir, fmt.Sprintf("r%05d", i), 2*cfg.TimeoutSec)
+				ch <- ans{res, sp.name, el}
+			}(sp)
+		}
+		maxEl := 0.0
+		for range solvers {
+			a := <-ch
+			if a.el > maxEl {
+				maxEl = a.el
+			}
+			if a.res == "unsat" && o.Result != "unsat" {
+				o.Result, o.Solver = "unsat", a.name+" (retry)"
+			}
+		}
+		o.Seconds += maxEl
+	}
 }
 
 func (bg *Background) dischargeOne(o *Obligation, cfg SolverConfig, dir, id string) {
